@@ -2,9 +2,11 @@ package handshake
 
 import (
 	"fmt"
+	"net"
 	"runtime"
 	"sort"
 	"strings"
+	"sync"
 	"time"
 
 	ouroboros "github.com/blinklabs-io/gouroboros"
@@ -218,7 +220,7 @@ func protoMode(table string) protocol.ProtocolMode {
 
 // newDirect builds a handshake client or server with a caller-chosen version
 // map on a real muxer over conn. Nothing is started.
-func newDirect(conn *rawpeer.FragConn, mode protocol.ProtocolMode, server bool, vm protocol.ProtocolVersionMap) *directEnd {
+func newDirect(conn net.Conn, mode protocol.ProtocolMode, server bool, vm protocol.ProtocolVersionMap) *directEnd {
 	d := &directEnd{
 		Mux:      muxer.New(conn),
 		ErrCh:    make(chan error, 10),
@@ -248,13 +250,24 @@ func newDirect(conn *rawpeer.FragConn, mode protocol.ProtocolMode, server bool, 
 	return d
 }
 
-func (d *directEnd) start() {
+func (d *directEnd) start() { d.startMode(false) }
+
+// startOnce lets the muxer read exactly one segment, which is how
+// ouroboros.Connection runs the handshake (the muxer is started fully only
+// after the handshake, so a close right behind the reply is not seen early).
+func (d *directEnd) startOnce() { d.startMode(true) }
+
+func (d *directEnd) startMode(once bool) {
 	if d.Server != nil {
 		d.Server.Start()
 	} else {
 		d.Client.Start()
 	}
-	d.Mux.Start()
+	if once {
+		d.Mux.StartOnce()
+	} else {
+		d.Mux.Start()
+	}
 }
 
 // outcome waits for FinishedFunc or a protocol/muxer error.
@@ -361,4 +374,60 @@ func errString(e error) string {
 		return ""
 	}
 	return e.Error()
+}
+
+// ---- wire tap -------------------------------------------------------------------------
+
+// tapConn records everything an endpoint writes and when it closes its end, so
+// that "was the reply ever put on the wire" is decided from the bytes, not from
+// timing: once the endpoint has closed the connection the record is final.
+type tapConn struct {
+	net.Conn
+	mu     sync.Mutex
+	wrote  []byte
+	once   sync.Once
+	closed chan struct{}
+}
+
+func newTap(c net.Conn) *tapConn { return &tapConn{Conn: c, closed: make(chan struct{})} }
+
+func (t *tapConn) Write(p []byte) (int, error) {
+	n, err := t.Conn.Write(p)
+	if n > 0 {
+		t.mu.Lock()
+		t.wrote = append(t.wrote, p[:n]...)
+		t.mu.Unlock()
+	}
+	return n, err
+}
+
+func (t *tapConn) Close() error {
+	err := t.Conn.Close()
+	t.once.Do(func() { close(t.closed) })
+	return err
+}
+
+func (t *tapConn) waitClosed() bool {
+	select {
+	case <-t.closed:
+		return true
+	case <-time.After(longWait):
+		return false
+	}
+}
+
+// handshakeStream returns the bytes written on the handshake protocol stream in
+// the given direction.
+func (t *tapConn) handshakeStream(response bool) []byte {
+	t.mu.Lock()
+	b := append([]byte(nil), t.wrote...)
+	t.mu.Unlock()
+	segs, _ := rawpeer.ParseSegs(b)
+	var out []byte
+	for _, s := range segs {
+		if s.ProtoID == 0 && s.Response == response {
+			out = append(out, s.Payload...)
+		}
+	}
+	return out
 }
